@@ -24,7 +24,8 @@
 (***************************************************************************)
 EXTENDS RuxPath, TLC
 
-CONSTANTS D_NoRestoreMw,       \* deviation: Group does not restore the group middleware on return
+CONSTANTS D_GroupAliasesCallerList, \* F22: Group keeps the caller's middleware slice; Use / nested Group append INTO it
+          D_NoRestoreMw,       \* deviation: Group does not restore the group middleware on return
           D_UseLeaksToParent,  \* deviation: Use inside a nested group is appended to the outermost group's list as well
           D_RouteMwBeforeGroup \* deviation: the route's own middleware is placed before the group middleware
 
@@ -32,23 +33,40 @@ VARIABLES prog,      \* the statements executed so far
           curPrefix, curMw,   \* Router.currentGroupPrefix / currentGroupHandlers
           saved,     \* prevPrefix / prevHandlers of the Group calls in progress (Go call stack)
           global,    \* Router.handlers
-          routes     \* registered routes: [pos, path, mw]   (mw copied at registration: combineHandlers)
-regvars == <<prog, curPrefix, curMw, saved, global, routes>>
+          routes,    \* registered routes: [pos, path, mw]   (mw copied at registration: combineHandlers)
+          commonArr, \* a middleware list OWNED BY THE APPLICATION (3 handlers <<0,1>>..<<0,3>>); groups may be given a prefix of it
+          curAlias   \* 0, or L > 0: currentGroupHandlers is the Go slice commonArr[0:L] (same backing array, capacity 3)
+regvars == <<prog, curPrefix, curMw, saved, global, routes, commonArr, curAlias>>
 
 Strict == FALSE
 Ids(pos, n) == [i \in 1..n |-> <<pos, i>>]
 Main(pos)   == <<pos, 0>>
 Depth       == Len(saved)
 
-RegInit == prog = <<>> /\ curPrefix = <<>> /\ curMw = <<>> /\ saved = <<>> /\ global = <<>> /\ routes = <<>>
+Common0 == << <<0, 1>>, <<0, 2>>, <<0, 3>> >>
+RegInit == /\ prog = <<>> /\ curPrefix = <<>> /\ curMw = <<>> /\ saved = <<>> /\ global = <<>> /\ routes = <<>>
+           /\ commonArr = Common0 /\ curAlias = 0
+
+\* append(currentGroupHandlers, ids...): in place when the slice aliases the caller's list and has room, else a new array
+AppendCur(ids) ==
+  IF D_GroupAliasesCallerList /\ curAlias > 0 /\ curAlias + Len(ids) <= Len(commonArr)
+  THEN /\ commonArr' = [i \in 1..Len(commonArr) |-> IF i > curAlias /\ i <= curAlias + Len(ids) THEN ids[i - curAlias] ELSE commonArr[i]]
+       /\ curAlias' = curAlias + Len(ids)
+       /\ curMw' = curMw \o ids
+  ELSE /\ curMw' = curMw \o ids /\ curAlias' = 0 /\ UNCHANGED commonArr
 
 \* ---- operational -------------------------------------------------------------------------------
-Enter(prefix, n) ==
-  LET pos == Len(prog) + 1 IN
-  /\ prog' = Append(prog, [op |-> "enter", prefix |-> prefix, mw |-> n])
-  /\ saved' = Append(saved, [prefix |-> curPrefix, mw |-> curMw])
+\* fromCommon: the middleware arguments are commonArr[0:n] (as it is NOW), passed as `common[:n]...`
+Enter(prefix, n, fromCommon) ==
+  LET pos == Len(prog) + 1
+      mws == IF fromCommon THEN SubSeq(commonArr, 1, n) ELSE Ids(pos, n) IN
+  /\ prog' = Append(prog, [op |-> "enter", prefix |-> prefix, mw |-> n, common |-> fromCommon])
+  /\ saved' = Append(saved, [prefix |-> curPrefix, mw |-> curMw, alias |-> curAlias])
   /\ curPrefix' = curPrefix \o FormatPath(Strict, prefix)
-  /\ curMw' = IF n > 0 THEN (IF curMw # <<>> THEN curMw \o Ids(pos, n) ELSE Ids(pos, n)) ELSE curMw
+  /\ IF n = 0 THEN UNCHANGED <<curMw, curAlias, commonArr>>
+     ELSE IF curMw # <<>> THEN AppendCur(mws)                          \* append(r.currentGroupHandlers, middles...)
+     ELSE /\ curMw' = mws /\ UNCHANGED commonArr                       \* r.currentGroupHandlers = middles
+          /\ curAlias' = IF D_GroupAliasesCallerList /\ fromCommon THEN n ELSE 0
   /\ UNCHANGED <<global, routes>>
 
 Exit ==
@@ -56,19 +74,20 @@ Exit ==
   /\ prog' = Append(prog, [op |-> "exit"])
   /\ curPrefix' = saved[Len(saved)].prefix
   /\ curMw' = IF D_NoRestoreMw THEN curMw ELSE saved[Len(saved)].mw
+  /\ curAlias' = saved[Len(saved)].alias
   /\ saved' = SubSeq(saved, 1, Len(saved) - 1)
-  /\ UNCHANGED <<global, routes>>
+  /\ UNCHANGED <<global, routes, commonArr>>
 
 Use(n) ==
   LET pos == Len(prog) + 1 IN
   /\ n > 0
   /\ prog' = Append(prog, [op |-> "use", mw |-> n])
   /\ IF curPrefix # <<>>      \* `if r.currentGroupPrefix != ""`: use method in Group()
-     THEN /\ curMw' = curMw \o Ids(pos, n)
+     THEN /\ AppendCur(Ids(pos, n))
           /\ saved' = IF D_UseLeaksToParent /\ saved # <<>>
                       THEN [saved EXCEPT ![Len(saved)].mw = @ \o Ids(pos, n)] ELSE saved
           /\ UNCHANGED global
-     ELSE global' = global \o Ids(pos, n) /\ UNCHANGED <<curMw, saved>>
+     ELSE global' = global \o Ids(pos, n) /\ UNCHANGED <<curMw, saved, curAlias, commonArr>>
   /\ UNCHANGED <<curPrefix, routes>>
 
 Add(path, n) ==
@@ -79,14 +98,14 @@ Add(path, n) ==
       mw   == IF D_RouteMwBeforeGroup THEN own \o curMw ELSE curMw \o own       \* combineHandlers, then Route.Use(variadic)
   IN /\ prog' = Append(prog, [op |-> "add", path |-> path, mw |-> n])
      /\ routes' = Append(routes, [pos |-> pos, path |-> full, mw |-> mw])
-     /\ UNCHANGED <<curPrefix, curMw, saved, global>>
+     /\ UNCHANGED <<curPrefix, curMw, saved, global, commonArr, curAlias>>
 
 RouteUse(k, n) ==
   LET pos == Len(prog) + 1 IN
   /\ k \in 1..Len(routes) /\ n > 0
   /\ prog' = Append(prog, [op |-> "ruse", route |-> k, mw |-> n])
   /\ routes' = [routes EXCEPT ![k].mw = @ \o Ids(pos, n)]
-  /\ UNCHANGED <<curPrefix, curMw, saved, global>>
+  /\ UNCHANGED <<curPrefix, curMw, saved, global, commonArr, curAlias>>
 
 \* the handlers a request for route k runs, in order (dispatch.go: global ++ route.handlers ++ route.handler,
 \* evaluated when the request arrives, so later top-level Use calls are included)
@@ -108,7 +127,8 @@ InnermostOf(i) == IF EnclosingOf(i) = {} THEN 0 ELSE CHOOSE j \in EnclosingOf(i)
 \* middleware contributed by group j (or the top level, j = 0) to a statement at position i inside it:
 \* the group's own middleware and the Use statements placed directly in it before i
 UsesDirectlyIn(j, i) == SortedSeq({ u \in 1..(i - 1) : prog[u].op = "use" /\ InnermostOf(u) = j })
-GroupMwAt(j, i) == (IF j = 0 THEN <<>> ELSE Ids(j, prog[j].mw))
+OwnMw(j) == IF prog[j].common THEN SubSeq(Common0, 1, prog[j].mw) ELSE Ids(j, prog[j].mw)   \* the list as the application wrote it
+GroupMwAt(j, i) == (IF j = 0 THEN <<>> ELSE OwnMw(j))
                    \o FlattenSeq([x \in 1..Len(UsesDirectlyIn(j, i)) |-> Ids(UsesDirectlyIn(j, i)[x], prog[UsesDirectlyIn(j, i)[x]].mw)])
 ExpGroupMw(i)  == LET enc == SortedSeq(EnclosingOf(i)) IN FlattenSeq([x \in 1..Len(enc) |-> GroupMwAt(enc[x], i)])
 ExpPrefixes(i) == LET enc == SortedSeq(EnclosingOf(i)) IN [x \in 1..Len(enc) |-> prog[enc[x]].prefix]
@@ -127,6 +147,8 @@ RoutesAgree == \A k \in 1..Len(routes) :
                   /\ routes[k].mw = ExpRouteMw(k)                  \* exactly the middleware in effect at registration
                   /\ ChainOf(k) = ExpChain(k)                      \* C04: global -> groups outer..inner -> route -> main
 \* no residue: at every point the router's two fields are what the lexical position says
+\* the application's own list is never modified by the router
+CallerListIntact == commonArr = Common0
 NoResidue   == /\ curMw = ExpGroupMw(Len(prog) + 1)
                /\ curPrefix = PrefixText(Strict, ExpPrefixes(Len(prog) + 1))
                /\ global = ExpGlobal
